@@ -509,6 +509,10 @@ def run_pipeline(out, jobs_by_name, mc_specs, prop):
     for name, jobs in jobs_by_name.items():
         all_jobs += jobs
     traces = replay_all(all_jobs)
+    st_traces, st_stats = suite_traces("suite-" + prop)
+    out.add_cov(test_suite_traces=len(st_traces), test_suite_hook_events=st_stats.get("events", 0),
+                test_suite_traces_skipped_big=st_stats.get("big", 0))
+    traces = traces + st_traces
     r = validate(traces, "val-" + prop)
     nontrivial = set()
     for t in traces:
@@ -620,3 +624,22 @@ def validate_perm_groups(traces, jobs, name):
         v = tla_value(raw)
         rej.append((v[1], v[2], sorted(v[3]), v[4]))
     return rej, len(groups)
+
+
+# --------------------------------------------------------------------------
+# traces of the repository's own test-suite (needs the env-guarded hook)
+
+def suite_traces(name="suite"):
+    import subprocess
+    wd = workdir(name)
+    out = os.path.join(wd, "suite.json")
+    env = dict(os.environ, GFAPY_VERIF="1", PYTHONPATH=VERIF + os.pathsep + REPO, SUITE_TRACE_OUT=out,
+               PYTHONHASHSEED="0", PYTHONDONTWRITEBYTECODE="1")
+    p = subprocess.run([sys.executable, "-m", "pytest", "-q", "-p", "no:cacheprovider", "-p", "harness.suite_trace",
+                        "-x", "--no-header", "-q", "tests"], cwd=REPO, env=env, stdout=subprocess.PIPE,
+                       stderr=subprocess.STDOUT, text=True, timeout=1800)
+    if not os.path.exists(out):
+        return [], {"no_hook": 1, "pytest_tail": p.stdout[-500:]}
+    with open(out) as f:
+        d = json.load(f)
+    return d["traces"], d["stats"]
